@@ -1,6 +1,7 @@
 SPECIFICATION Spec
 CONSTANT Family = "sig"
-CONSTANT MaxParams = 3
+CONSTANT MaxParams = 4
+CONSTANT CallLevel = 3
 CONSTANT MutantParams = 2
 INVARIANT RoundTrip
 INVARIANT ParseCanonical
